@@ -126,6 +126,20 @@ class TreeGen:
 
     def new(self):
         r = self.r
+        if r.random() < 0.25:
+            # a creation that fails (constructor reverts unless it is paid) must leave no trace: the same CREATE2 (same salt, same init code)
+            # succeeds when it is retried with a value
+            from gen import initcode_with_prologue
+            init = initcode_with_prologue(asm(["CALLVALUE", "@paid", "JUMPI", 0, 0, "REVERT", ":paid"]), asm([0x2B, 0, "MSTORE", 32, 0, "RETURN"]))
+            self.features.add("new:failed-create2-retried")
+            toks = []
+            padded = init + bytes((-len(init)) % 32)
+            for i in range(0, len(padded), 32):
+                toks += [("push", int.from_bytes(padded[i : i + 32], "big"), 32), 0x400 + i, "MSTORE"]
+            salt = r.choice([0, 1, 7])
+            toks += [salt, len(init), 0x400, 0, "CREATE2", 10, "SSTORE"]
+            toks += [salt, len(init), 0x400, 1, "CREATE2", "DUP1", 11, "SSTORE", "EXTCODESIZE", 12, "SSTORE"]
+            return toks
         init = r.choice(self.initcodes)
         self.features.add("new")
         toks = []
